@@ -208,3 +208,10 @@ func ReplayMain(harnesses map[string]func()) {
 		}
 	}
 }
+
+// Quiesce2 / Release2: a simple gate for harness peers (a peer calls Quiesce2 to wait, the harness calls Release2).
+var gate2 = make(chan struct{})
+var gate2Once sync.Once
+
+func Quiesce2() { <-gate2 }
+func Release2() { gate2Once.Do(func() { close(gate2) }) }
